@@ -68,7 +68,7 @@ ENSURE_ABS.stubs.pop("os.sep")
 def os_stat(ev, args, kwargs, node):
     """os.stat: the entry's stat result, FileNotFoundError, NotADirectoryError or ValueError (A-stat; other OSErrors are environment
     faults, not request content).  Every attempt is recorded on the ghost `fs`: how many, the last path, and whether all
-    paths so far were inside the configured directory.  The configured directory itself exists (A-dir-exists)."""
+    paths so far were inside the configured directory."""
     USED.add("A-stat")
     st = ev.st
     g = st.obj(st.ghost["fs"])
@@ -79,9 +79,7 @@ def os_stat(ev, args, kwargs, node):
     g.fields["all_inside"] = VBool(z3.And(g.fields["all_inside"].t, inside))
     k = st.choose([z3.BoolVal(True)] * 4, force_record=True)
     if k in (1, 2, 3):
-        USED.add("A-dir-exists")
-        st.assume(args[0].t != d)
-        # (ValueError: a NUL byte in the path)
+        # (ValueError: a NUL byte in the path.  The configured directory itself may be missing too.)
         raise PyRaise(("FileNotFoundError", "NotADirectoryError", "ValueError")[k - 1], None, getattr(node, "lineno", 0))
     return st.alloc(Obj("stat_result", {"st_mode": st.fresh(Int, "st_mode"), "st_size": st.fresh(Int, "st_size"),
                                         "st_mtime": st.fresh(Opaque("Float"), "st_mtime"),
@@ -113,10 +111,9 @@ CHECK_FILE = Contract(
                                       "fs.all_inside == (old(fs.all_inside) and inside(self.directory, path)))",
         "regular_iff_mode": "implies(not is_none(result[0]), result[1] == S_ISREG(result[0].st_mode))",
         "absent": "implies(is_none(result[0]), not result[1])",
-        "directory_exists": "implies(not is_none(path) and path == self.directory, not is_none(result[0]))",
     },
     canaries={"never_a_file": "not result[1]"},
-    assumptions=["A-stat", "A-dir-exists"],
+    assumptions=["A-stat"],
 )
 
 
@@ -244,7 +241,7 @@ def mk_app_call(file_, iface, cls):
         model_to_inputs=(lambda m, _i=iface, _c=cls: {"kind": _c, "iface": _i,
                                                       "path": "/" + str(m.get("rp", m.get("scope['path']", ""))).lstrip("/")}),
         native=("c07", "replay"),
-        assumptions=["A-path-1", "A-path-2", "A-stat", "A-dir-exists"],
+        assumptions=["A-path-1", "A-path-2", "A-stat"],
         notes="ensure_absolute_path, check_path_is_file and file_response enter through their own contracts; calling the "
               "response object is recorded on the ghost `sv` (its emissions are C02 / C05 / C14); handle_404 is an opaque app",
     )
